@@ -55,7 +55,12 @@ def render (s : St) : String :=
   let tr := match c.trails with
     | none => [ "trails N" ]
     | some h => h.map (fun p => "trail " ++ hx p.1 ++ " " ++ hx p.2)
-  String.intercalate " | " ([l0, l1, l2] ++ hs ++ ["body " ++ hx c.body] ++ pm ++ tr ++ ["left " ++ hx s.msg])
+  -- an event-stream response: what the Respondent shows of its event source
+  let sse := if c.kind = .rsp ∧ c.evented = some true then
+      ("sse retry=" ++ toString c.retry ++ " leid=" ++ ohx c.leid) ::
+        c.events.map (fun e => "ev " ++ ohx e.id ++ " " ++ hx e.name ++ " " ++ hx e.data)
+    else []
+  String.intercalate " | " ([l0, l1, l2] ++ hs ++ ["body " ++ hx c.body] ++ pm ++ tr ++ ["left " ++ hx s.msg] ++ sse)
 
 def runOps : St → List String → Option St
   | s, [] => some s
